@@ -605,6 +605,8 @@ def run(ctx):
     impl = Impl()
     scale = 12 if ctx.thorough else 1
     n = {k: v * scale for k, v in COUNTS_QUICK.items()}
+    if ctx.thorough:
+        n['scoped'] = COUNTS_QUICK['scoped'] * 2      # every scope registers fresh channel children: cost grows quadratically
     corpus = load_corpus() + [dict(xs=f['witness']['xs'], writer='dqrepr') for f in verdict.load_findings(PROPERTY) if 'xs' in f.get('witness', {})] \
         + [dict(s=f['witness']['s']) for f in verdict.load_findings(PROPERTY) if 's' in f.get('witness', {})]
     ex = explore(impl, rng.make('c13'), n, corpus)
